@@ -908,7 +908,13 @@ def rand_value(rng, hostile):
         return [rng.choice(DIM_VALUES + ['2021-01-01', 'default', ''])]
     if rng.random() < 0.35:      # structured: an existing directory as stepping stone, some "..", a target next to the cache
         stone = rng.choice([[], ['v1'], ['v2'], ['..'], ['.'], ['v1', 'a']])
-        return stone + ['..'] * rng.randint(1, 4) + rng.choice([['decoy'], ['cc2'], ['data', 'decoy'], ['cc', 'time-v1'], ['tlocks'], []])
+        segs = stone + ['..'] * rng.randint(1, 4) + rng.choice([['decoy'], ['cc2'], ['data', 'decoy'], ['cc', 'time-v1'], ['tlocks'], []])
+        if rng.random() < 0.3:
+            # the same journey spelled with compatibility characters (FULLWIDTH SOLIDUS, TWO DOT LEADER, FULLWIDTH FULL STOP):
+            # ONE path component that only looks like several - until somebody normalises it
+            up = rng.choice(['\u2025', '\uff0e\uff0e', '\u2024\u2024'])
+            return ['\uff0f'.join(up if x == '..' else x for x in (segs if stone else ['x'] + segs))]
+        return segs
     return [rng.choice(HOSTILE_TOK) for _ in range(rng.randint(1, 6))]
 
 
